@@ -313,36 +313,63 @@ def fetchSensors (sensors : String → String → Option (List (List S))) (name 
 
 variable [Sub F] [Neg F] [Zero F] [LT F] [DecidableLT F]
 
-/-- the product loop of `calc_correction` -/
+/-- the product loop of `calc_correction`.  Besides the dict of products it threads the Python
+    variable `expand`: the nearest-channel table most recently computed (`none` = never assigned). -/
 def productLoop (sensors : String → String → Option (List (List S))) (inputs : List String)
     (dataFreqs : List F) (allCalFreqs : String → Option (List F)) (atol : F) (skipMissing : Bool) :
-    List String → List (Product S) → Except Err (List (Product S))
-  | [], acc => .ok acc
-  | name :: rest, acc =>
+    List String → List (Product S) → Option (List Nat) → Except Err (List (Product S) × Option (List Nat))
+  | [], acc, last => .ok (acc, last)
+  | name :: rest, acc, last =>
     match parseCalProduct name with
     | none => .error .value
     | some (stream, _) =>
       match fetchSensors sensors name inputs with
-      | none => if skipMissing then productLoop sensors inputs dataFreqs allCalFreqs atol skipMissing rest acc
+      | none => if skipMissing then
+                  productLoop sensors inputs dataFreqs allCalFreqs atol skipMissing rest acc last
                 else .error .key
       | some corr =>
         match allCalFreqs stream with
         | none => .error .key
         | some calFreqs => do
           let n ← corrNChans corr
-          let p : Product S := { name := name, corr := corr, cmap := chooseMap atol n dataFreqs calFreqs }
-          productLoop sensors inputs dataFreqs allCalFreqs atol skipMissing rest (dictSet acc p)
+          let cm := chooseMap atol n dataFreqs calFreqs
+          let p : Product S := { name := name, corr := corr, cmap := cm }
+          let last' := match cm with | .expand e => some e | _ => last
+          productLoop sensors inputs dataFreqs allCalFreqs atol skipMissing rest (dictSet acc p) last'
 
-/-- `calc_correction` up to the dask array: `final_cal_products` are the names in `prods` -/
+/-- Python closures capture variables, not values: each `lambda g, channels: g[expand[channels]]`
+    installed by the loop reads `expand` when it is *called*, i.e. the table of the last product that
+    needed one.  (This is where the code departs from "each product's own channelisation".) -/
+def lateBind (last : Option (List Nat)) (ps : List (Product S)) : List (Product S) :=
+  match last with
+  | none => ps
+  | some e => ps.map fun p => match p.cmap with
+    | .expand _ => { p with cmap := .expand e }
+    | _ => p
+
+def mkParams (corrprods : List (String × String)) (inputs : List String) (prods : List (Product S)) :
+    Params S :=
+  { inputs := inputs
+    idx1 := corrprods.map fun cp => inputs.idxOf cp.1
+    idx2 := corrprods.map fun cp => inputs.idxOf cp.2
+    prods := prods }
+
+/-- `calc_correction` as *intended*: every product keeps the channel map chosen for it -/
+def calcCorrectionIntended (sensors : String → String → Option (List (List S)))
+    (corrprods : List (String × String)) (calProducts : List String) (dataFreqs : List F)
+    (allCalFreqs : String → Option (List F)) (atol : F) (skipMissing : Bool) : Except Err (Params S) := do
+  let inputs := sortedInputs corrprods
+  let r ← productLoop sensors inputs dataFreqs allCalFreqs atol skipMissing calProducts [] none
+  pure (mkParams corrprods inputs r.1)
+
+/-- `calc_correction` as *coded* (up to the dask array): `final_cal_products` are the names in
+    `prods`; the nearest-channel maps are late-bound -/
 def calcCorrection (sensors : String → String → Option (List (List S))) (corrprods : List (String × String))
     (calProducts : List String) (dataFreqs : List F) (allCalFreqs : String → Option (List F)) (atol : F)
     (skipMissing : Bool) : Except Err (Params S) := do
   let inputs := sortedInputs corrprods
-  let prods ← productLoop sensors inputs dataFreqs allCalFreqs atol skipMissing calProducts []
-  pure { inputs := inputs
-         idx1 := corrprods.map fun cp => inputs.idxOf cp.1
-         idx2 := corrprods.map fun cp => inputs.idxOf cp.2
-         prods := prods }
+  let r ← productLoop sensors inputs dataFreqs allCalFreqs atol skipMissing calProducts [] none
+  pure (mkParams corrprods inputs (lateBind r.2 r.1))
 
 /-- spec by *label*: the correction a product holds for the input called `inp` -/
 def corrByLabel (A : CAlg S F) (sensors : String → String → Option (List (List S))) (name : String)
